@@ -1,8 +1,10 @@
 package c14
 
 import (
+	"encoding/binary"
 	"fmt"
 	"sort"
+	"strconv"
 	"strings"
 
 	"github.com/sourcenetwork/immutable"
@@ -169,7 +171,13 @@ func (w *world) dump(n *hx.Node, isR bool) *dumper {
 			}
 		} else {
 			d.safe("documents", "documents/"+name, func() string {
-				q := fmt.Sprintf("query { %s(showDeleted: true) { _docID _deleted _version { cid height schemaVersionId } %s } }", name, fields)
+				q := fmt.Sprintf("query { %s(showDeleted: true) { _docID _deleted %s } }", name, fields)
+				return rowsText(n.Exec(q), name)
+			})
+			// separate from the read above: _version next to a relation sub-selection panics in the planner
+			// (selectNode.addSubPlan, with or without restart), which is not this property's matter
+			d.safe("documents", "document versions/"+name, func() string {
+				q := fmt.Sprintf("query { %s(showDeleted: true) { _docID _version { cid height schemaVersionId } } }", name)
 				return rowsText(n.Exec(q), name)
 			})
 			d.safe("docids", "collection.GetAllDocIDs/"+name, func() string {
@@ -250,10 +258,118 @@ func (w *world) dump(n *hx.Node, isR bool) *dumper {
 		return strings.Join(hx.SortRows(rows), "\n")
 	})
 
+	d.safe("allocation-state", "identifier allocation state (raw system store: sequences, short ids)", func() string {
+		lines, _ := allocState(n)
+		return strings.Join(lines, "\n")
+	})
+
 	if w.p2p != nil {
 		w.p2p.dump(d)
 	}
 	return d
+}
+
+// allocState reads the sequences and the short-id tables from the raw system store and checks the
+// invariant behind "no identifier reuse": every sequence is at least the largest identifier handed
+// out from it, and no short id is assigned twice. violation is "" when the invariant holds.
+func allocState(n *hx.Node) (lines []string, violation string) {
+	read := func(prefix string) []hx.FaultKV {
+		kvs, err := hx.FaultSnapshotOf(n.DB.Rootstore(), []byte(prefix))
+		if err != nil {
+			hx.Harnessf("raw read of %s: %v", prefix, err)
+		}
+		return kvs
+	}
+	seqs := map[string]uint64{}
+	for _, kv := range read("/db/system/seq/") {
+		k := strings.TrimPrefix(string(kv.K), "/db/system")
+		var v uint64
+		if len(kv.V) == 8 {
+			v = binary.BigEndian.Uint64(kv.V)
+		} else {
+			violation = fmt.Sprintf("sequence %s has a %d-byte value", k, len(kv.V))
+		}
+		seqs[k] = v
+		lines = append(lines, fmt.Sprintf("%s = %d", k, v))
+	}
+	note := func(msg string) {
+		if violation == "" {
+			violation = msg
+		}
+	}
+	// collection short ids
+	seen := map[string]string{}
+	var maxCol uint64
+	for _, kv := range read("/db/system/collection/shortID/") {
+		k := strings.TrimPrefix(string(kv.K), "/db/system")
+		lines = append(lines, fmt.Sprintf("%s = %s", k, kv.V))
+		id, err := strconv.ParseUint(string(kv.V), 10, 64)
+		if err != nil {
+			note(fmt.Sprintf("short id %s = %q is not a number", k, kv.V))
+			continue
+		}
+		if other, dup := seen[string(kv.V)]; dup {
+			note(fmt.Sprintf("collection short id %d is assigned to both %s and %s", id, other, k))
+		}
+		seen[string(kv.V)] = k
+		if id > maxCol {
+			maxCol = id
+		}
+	}
+	if maxCol > seqs["/seq/collection"] {
+		note(fmt.Sprintf("collection short id %d has been handed out but the persisted sequence /seq/collection is %d: the next collection reuses an id", maxCol, seqs["/seq/collection"]))
+	}
+	// field short ids, per collection short id
+	maxField := map[string]uint64{}
+	seenF := map[string]string{}
+	for _, kv := range read("/db/system/field/shortID/") {
+		k := strings.TrimPrefix(string(kv.K), "/db/system")
+		lines = append(lines, fmt.Sprintf("%s = %s", k, kv.V))
+		parts := strings.Split(strings.TrimPrefix(k, "/field/shortID/"), "/")
+		id, err := strconv.ParseUint(string(kv.V), 10, 64)
+		if err != nil || len(parts) != 2 {
+			note(fmt.Sprintf("field short id entry %s = %q is malformed", k, kv.V))
+			continue
+		}
+		key := parts[0] + "#" + string(kv.V)
+		if other, dup := seenF[key]; dup {
+			note(fmt.Sprintf("field short id %d of collection %s is assigned to both %s and %s", id, parts[0], other, k))
+		}
+		seenF[key] = k
+		if id > maxField[parts[0]] {
+			maxField[parts[0]] = id
+		}
+	}
+	for col, m := range maxField {
+		if s := seqs["/seq/field/"+col]; m > s {
+			note(fmt.Sprintf("field short id %d of collection %s has been handed out but the persisted sequence /seq/field/%s is %d", m, col, col, s))
+		}
+	}
+	// index ids, per collection id, from the descriptions of all versions
+	cols, err := n.DB.GetCollections(n.Ctx, client.CollectionFetchOptions{IncludeInactive: immutable.Some(true)})
+	if err == nil {
+		maxIx := map[string]uint32{}
+		for _, c := range cols {
+			v := c.Version()
+			for _, ix := range v.Indexes {
+				if ix.ID > maxIx[v.CollectionID] {
+					maxIx[v.CollectionID] = ix.ID
+				}
+			}
+		}
+		ids := make([]string, 0, len(maxIx))
+		for id := range maxIx {
+			ids = append(ids, id)
+		}
+		sort.Strings(ids)
+		for _, id := range ids {
+			if s := seqs["/seq/index/"+id]; uint64(maxIx[id]) > s {
+				note(fmt.Sprintf("index id %d exists in collection %s but the persisted sequence /seq/index/%s is %d: the next index reuses an id", maxIx[id], id, id, s))
+			}
+		}
+	}
+	sort.Strings(lines)
+	return lines, violation
 }
 
 // firstDiff describes the first differing line of two texts.
@@ -385,22 +501,27 @@ func (w *world) crashAfter(o Op, f *hx.Failure) *hx.Failure {
 				w.step, o.K, s.seq, i+1, len(snaps), bootErr, w.history())
 		}
 		dc := w.dump(n, true)
+		_, inv := allocState(n)
 		n.Close()
+		if inv != "" {
+			return hx.Failf("C14/crash/identifier-allocation-invariant", "step %d %s: store contents after storage commit #%d (%d of %d of this operation): %s\n%s",
+				w.step, o.K, s.seq, i+1, len(snaps), inv, w.history())
+		}
 		w.info.add("crash-snapshots-opened", 1)
 		w.info.flag("crash-snapshot-opened")
 		if w.afterRst {
 			w.info.flag("crash-snapshot-after-restart")
 		}
-		if len(dc.errs) > 0 {
-			return hx.Failf("C14/crash/dump-panic", "step %d %s: node opened on the store contents after storage commit #%d panics while answering the dump: %s\n%s",
+		if dt == nil {
+			dt = w.dump(w.T, false)
+		}
+		if len(dc.errs) > 0 && len(dt.errs) == 0 {
+			return hx.Failf("C14/crash/dump-panic", "step %d %s: node opened on the store contents after storage commit #%d panics while answering the dump (the running twin does not): %s\n%s",
 				w.step, o.K, s.seq, strings.Join(dc.errs, "; "), w.history())
 		}
 		if !last {
 			w.info.flag("crash-snapshot-mid-operation")
 			continue
-		}
-		if dt == nil {
-			dt = w.dump(w.T, false)
 		}
 		if class, desc, differ := diffDumps(dc, dt); differ {
 			return hx.Failf("C14/crash/"+class, "step %d %s: a fresh node opened on the store contents as of the last storage commit (#%d) of this operation differs from the running twin; %s%s",
